@@ -120,7 +120,7 @@ impl ConfirmHistory {
     pub(super) fn set_last_tick(&mut self, tick: RepliconTick) {
         debug_assert!(tick >= self.last_tick);
         let diff = tick - self.last_tick;
-        self.mask = self.mask.wrapping_shl(diff);
+        self.mask = self.mask.checked_shl(diff).unwrap_or(0); // Nothing from the old window remains.
         self.last_tick = tick;
         self.mask |= 1;
     }
